@@ -1,22 +1,81 @@
-(* Props/C09.v — pinned statements for property C09 *)
+(* Props/C09.v — pinned statements for property C09 (scoping errors are found
+   before anything runs, and only real ones).  Statements closed by [exact lemma],
+   non-vacuity Examples, and [Print Assumptions]. *)
 From RJ Require Import Base.Outcome Model.Token Model.Ast Model.Ir Model.Analyze Proofs.Analyze_proofs.
 Local Open Scope N_scope.
 
+(* The analyzer (mirror of program/analyze.rs) accepts a program exactly when
+   it satisfies the specification's static rules [StaticOK] — which inspect
+   every sub-expression, evaluated or not.  [nums_ok]: every number literal has
+   the shape the lexer produces (checked on every AST in the correspondence). *)
+Theorem C09_analyze_exact : forall e vs io,
+  nums_ok e = true ->
+  ((exists ir, analyze_expr e (mk_env io vs) false = Ok ir) <-> StaticOK vs io e).
+Proof. exact analyze_exact. Qed.
+
+(* ... and it answers Ok or Err: the two panic sites of analyze.rs (number
+   conversion unwrap, index into the collected fields) are unreachable *)
+Theorem C09_analyze_no_panic : forall e en ts,
+  nums_ok e = true ->
+  (exists ir, analyze_expr e en ts = Ok ir) \/ (exists x, analyze_expr e en ts = Err x).
+Proof. exact analyze_no_panic. Qed.
+
+Theorem C09_field_name_sees_outer_scope : forall sp ms vs io ts f e nsp,
+  nums_ok (EObject sp (OMembers ms)) = true ->
+  is_ok (analyze_expr (EObject sp (OMembers ms)) (mk_env io vs) ts) = true ->
+  In (MField f) ms -> field_fname f = FnExpr e nsp ->
+  is_ok (analyze_expr e (mk_env io vs) false) = true.
+Proof. exact field_name_sees_outer_scope. Qed.
+
+Theorem C09_comp_vars_left_to_right : forall sp body pre v src post vs io ts,
+  nums_ok (EArrayComp sp body (pre ++ CFor v src :: post)) = true ->
+  is_ok (analyze_expr (EArrayComp sp body (pre ++ CFor v src :: post)) (mk_env io vs) ts) = true ->
+  is_ok (analyze_expr src (mk_env io (specs_out vs pre)) false) = true /\
+  is_ok (analyze_expr body (mk_env io (specs_out vs (pre ++ CFor v src :: post))) false) = true.
+Proof. exact comp_vars_left_to_right. Qed.
+
+Theorem C09_object_locals_mutual : forall sp ms vs io ts b,
+  nums_ok (EObject sp (OMembers ms)) = true ->
+  is_ok (analyze_expr (EObject sp (OMembers ms)) (mk_env io vs) ts) = true ->
+  In (MLocal b) ms ->
+  is_ok (analyze_bind_with analyze_expr (mk_env true (map bind_name (member_locals ms) ++ vs)) b) = true.
+Proof. exact object_locals_mutual. Qed.
+
+(* ---- non-vacuity ---- *)
 Definition sp0 : span := (0, 0).
 Definition idn (n : N) : ident := {| id_value := [n]; id_span := (n, n + 1) |}.
+Definition var (n : N) : expr := EIdent (n, n + 1) (idn n).
+Definition one : expr := ENumber sp0 {| num_digits := [49]; num_exp := 0 |}.
 
-(* local a = 1; a  is accepted *)
+(* local a = 1; a  is accepted: hypotheses of the iff are met on both sides *)
 Example C09_nonvacuous_ok :
-  is_ok (analyze (ELocal sp0 [MkBind (idn 97) None (ENumber sp0 {| num_digits := [49]; num_exp := 0 |})]
-                   (EIdent sp0 (idn 97))) []) = true.
-Proof. vm_compute. reflexivity. Qed.
+  let e := ELocal sp0 [MkBind (idn 97) None one] (var 97) in
+  nums_ok e = true /\ is_ok (analyze e []) = true /\ StaticOK [] false e.
+Proof.
+  intros e. assert (Hn : nums_ok e = true) by (vm_compute; reflexivity).
+  split; [exact Hn|]. split; [vm_compute; reflexivity|].
+  apply (proj1 (C09_analyze_exact e [] false Hn)). vm_compute. eexists; reflexivity.
+Qed.
 
-(* { [b]: 1, local b = 2 }  — the field name does not see the object local *)
+(* { [b]: null, local b = null }: the field name does not see the object local;
+   { local a = b, local b = a, f: self }: locals are mutual and self is bound;
+   [a for a in [b] for b in [1]]: a later clause variable is not visible earlier *)
 Example C09_nonvacuous_err :
-  analyze (EObject sp0 (OMembers [MField (FValue (FnExpr (EIdent sp0 (idn 98)) sp0) false VisDefault (ENull sp0));
+  analyze (EObject sp0 (OMembers [MField (FValue (FnExpr (var 98) sp0) false VisDefault (ENull sp0));
                                   MLocal (MkBind (idn 98) None (ENull sp0))])) []
-  = Err (UnknownVariable (98, 99) [98]).
-Proof. vm_compute. reflexivity. Qed.
+  = Err (UnknownVariable (98, 99) [98]) /\
+  is_ok (analyze (EObject sp0 (OMembers [MLocal (MkBind (idn 97) None (var 98));
+                                         MLocal (MkBind (idn 98) None (var 97));
+                                         MField (FValue (FnIdent (idn 102)) false VisDefault (ESelf sp0))])) []) = true /\
+  analyze (EArrayComp sp0 (var 97) [CFor (idn 97) (EArray sp0 [var 98]); CFor (idn 98) (EArray sp0 [one])]) []
+  = Err (UnknownVariable (98, 99) [98]) /\
+  analyze (ENumber sp0 {| num_digits := []; num_exp := 0 |}) [] = Panic "analyze.rs:analyze_expr:number parse unwrap".
+Proof. vm_compute. repeat split. Qed.
 
+Print Assumptions C09_analyze_exact.
+Print Assumptions C09_analyze_no_panic.
+Print Assumptions C09_field_name_sees_outer_scope.
+Print Assumptions C09_comp_vars_left_to_right.
+Print Assumptions C09_object_locals_mutual.
 Print Assumptions C09_nonvacuous_ok.
 Print Assumptions C09_nonvacuous_err.
